@@ -1961,7 +1961,9 @@ impl<'a> Searcher<'a> {
                     match op {
                         Op::Eq => match is_glob(&val) {
                             true => {
-                                let regex = self.regex_cache.get(&val);
+                                // patterns of different operators may share their text, but not their regex
+                                let cache_key = String::from("glob:") + &val;
+                                let regex = self.regex_cache.get(&cache_key);
                                 match regex {
                                     Some(regex) => {
                                         return regex.is_match(&field_value.to_string());
@@ -1971,7 +1973,7 @@ impl<'a> Searcher<'a> {
                                         let regex = Regex::new(&pattern);
                                         match regex {
                                             Ok(ref regex) => {
-                                                self.regex_cache.insert(val, regex.clone());
+                                                self.regex_cache.insert(cache_key, regex.clone());
                                                 return regex.is_match(&field_value.to_string());
                                             }
                                             _ => {
@@ -1985,7 +1987,9 @@ impl<'a> Searcher<'a> {
                         },
                         Op::Ne => match is_glob(&val) {
                             true => {
-                                let regex = self.regex_cache.get(&val);
+                                // patterns of different operators may share their text, but not their regex
+                                let cache_key = String::from("glob:") + &val;
+                                let regex = self.regex_cache.get(&cache_key);
                                 match regex {
                                     Some(regex) => {
                                         return !regex.is_match(&field_value.to_string());
@@ -1995,7 +1999,7 @@ impl<'a> Searcher<'a> {
                                         let regex = Regex::new(&pattern);
                                         match regex {
                                             Ok(ref regex) => {
-                                                self.regex_cache.insert(val, regex.clone());
+                                                self.regex_cache.insert(cache_key, regex.clone());
                                                 return !regex.is_match(&field_value.to_string());
                                             }
                                             _ => {
@@ -2008,7 +2012,9 @@ impl<'a> Searcher<'a> {
                             false => val.ne(&field_value.to_string()),
                         },
                         Op::Rx => {
-                            let regex = self.regex_cache.get(&val);
+                            // patterns of different operators may share their text, but not their regex
+                            let cache_key = String::from("rx:") + &val;
+                            let regex = self.regex_cache.get(&cache_key);
                             match regex {
                                 Some(regex) => {
                                     return regex.is_match(&field_value.to_string());
@@ -2017,7 +2023,7 @@ impl<'a> Searcher<'a> {
                                     let regex = Regex::new(&val);
                                     match regex {
                                         Ok(ref regex) => {
-                                            self.regex_cache.insert(val, regex.clone());
+                                            self.regex_cache.insert(cache_key, regex.clone());
                                             return regex.is_match(&field_value.to_string());
                                         }
                                         _ => error_exit("Incorrect regex expression", val.as_str()),
@@ -2026,7 +2032,9 @@ impl<'a> Searcher<'a> {
                             }
                         }
                         Op::NotRx => {
-                            let regex = self.regex_cache.get(&val);
+                            // patterns of different operators may share their text, but not their regex
+                            let cache_key = String::from("rx:") + &val;
+                            let regex = self.regex_cache.get(&cache_key);
                             match regex {
                                 Some(regex) => {
                                     return !regex.is_match(&field_value.to_string());
@@ -2035,7 +2043,7 @@ impl<'a> Searcher<'a> {
                                     let regex = Regex::new(&val);
                                     match regex {
                                         Ok(ref regex) => {
-                                            self.regex_cache.insert(val, regex.clone());
+                                            self.regex_cache.insert(cache_key, regex.clone());
                                             return !regex.is_match(&field_value.to_string());
                                         }
                                         _ => error_exit("Incorrect regex expression", val.as_str()),
@@ -2044,7 +2052,9 @@ impl<'a> Searcher<'a> {
                             }
                         }
                         Op::Like => {
-                            let regex = self.regex_cache.get(&val);
+                            // patterns of different operators may share their text, but not their regex
+                            let cache_key = String::from("like:") + &val;
+                            let regex = self.regex_cache.get(&cache_key);
                             match regex {
                                 Some(regex) => {
                                     return regex.is_match(&field_value.to_string());
@@ -2054,7 +2064,7 @@ impl<'a> Searcher<'a> {
                                     let regex = Regex::new(&pattern);
                                     match regex {
                                         Ok(ref regex) => {
-                                            self.regex_cache.insert(val, regex.clone());
+                                            self.regex_cache.insert(cache_key, regex.clone());
                                             return regex.is_match(&field_value.to_string());
                                         }
                                         _ => error_exit("Incorrect LIKE expression", val.as_str()),
@@ -2063,7 +2073,9 @@ impl<'a> Searcher<'a> {
                             }
                         }
                         Op::NotLike => {
-                            let regex = self.regex_cache.get(&val);
+                            // patterns of different operators may share their text, but not their regex
+                            let cache_key = String::from("like:") + &val;
+                            let regex = self.regex_cache.get(&cache_key);
                             match regex {
                                 Some(regex) => {
                                     return !regex.is_match(&field_value.to_string());
@@ -2073,7 +2085,7 @@ impl<'a> Searcher<'a> {
                                     let regex = Regex::new(&pattern);
                                     match regex {
                                         Ok(ref regex) => {
-                                            self.regex_cache.insert(val, regex.clone());
+                                            self.regex_cache.insert(cache_key, regex.clone());
                                             return !regex.is_match(&field_value.to_string());
                                         }
                                         _ => error_exit("Incorrect LIKE expression", val.as_str()),
